@@ -19,6 +19,12 @@ package floatingip
 //@ pure storeSame() bool = StoreDom == old(StoreDom) && forall k string :: StoreDom[k] ==> StoreKey[k] == old(StoreKey[k]) && StorePolicy[k] == old(StorePolicy[k]) && StoreNode[k] == old(StoreNode[k]) && StoreUid[k] == old(StoreUid[k])
 //@ pure storeUnchanged() bool = StoreDom == old(StoreDom) && StoreKey == old(StoreKey) && StorePolicy == old(StorePolicy) && StoreNode == old(StoreNode) && StoreUid == old(StoreUid)
 
+// ---- lock discipline (C19): the tables and the pool list are read under cacheLock (any mode) and
+// written under the write lock; obligations `lock:*` are generated at every access ----
+//@ guarded [C19] crdIpam.allocatedFIPs by cacheLock
+//@ guarded [C19] crdIpam.unallocatedFIPs by cacheLock
+//@ guarded [C19] crdIpam.FloatingIPs by cacheLock
+
 // ---- table invariant (I1-I3 of DESIGN.md) ----
 //@ pure tblOK(m map[string]*FloatingIP) bool = m != nil && forall k string :: k in m ==> m[k] != nil && m[k].pool != nil && m[k].pool.nodeSubnets != nil && ipstr(m[k].IP) == k
 //@ pure freeEntry(f *FloatingIP) bool = f.Key == "" && f.NodeName == "" && f.PodUid == "" && f.Policy == 0
@@ -75,7 +81,9 @@ package floatingip
 //@ func (*FloatingIP).Assign inline
 //@ func (*FloatingIP).CloneWith inline
 //@ func (*crdIpam).syncCacheAfterCreate inline
+//@   requires [C19] held[ptr(ci.cacheLock)] == 2
 //@ func (*crdIpam).syncCacheAfterDel inline
+//@   requires [C19] held[ptr(ci.cacheLock)] == 2
 
 // ---- Release: acts only on an (ip, key) match; whole view otherwise unchanged; failure changes nothing ----
 //@ func [C01,C04,C05,C19] (*crdIpam).Release
@@ -204,6 +212,7 @@ package floatingip
 //@   requires forall i int, r int {ipranges[i][r]} :: 0 <= i && i < len(ipranges) && 0 <= r && r < len(ipranges[i]) ==> nets.wfRange(ipranges[i][r])
 //@   ensures [C01,C05] inv(ci)
 //@   ensures [C05:multi-synced-single-fault] old(faults) <= 1 ==> synced(ci)
+//@   ensures [C05:multi-synced-on-success] result1 == nil ==> synced(ci)
 //@   ensures [C01:multi-frame] allEntriesSame() && ciFieldsSame(ci)
 //@   ensures [C08:multi-one-per-range] result1 == nil && len(ipranges) > 0 ==> len(result0) == len(ipranges)
 //@   ensures [C08,C06,C09,C01:multi-ith-in-ith-range-free-routable] result1 == nil && len(ipranges) > 0 ==> forall i int :: 0 <= i && i < len(ipranges) ==> (let s = ipstr(result0[i]) in old(inRanges(ipranges[i], s)) && old(eligible(ci, s, sub)) && s in ci.allocatedFIPs && !(s in ci.unallocatedFIPs) && attrApplied(ci.allocatedFIPs[s], key, attr))
@@ -212,9 +221,7 @@ package floatingip
 //@   ensures [C08,C05:multi-failure-leaves-tables] result1 != nil ==> tablesSame(ci)
 //@   ensures [C04:multi-store-only-adds] forall k string :: old(StoreDom[k]) ==> storeSameAt(k)
 //@   ensures [C08,C05:multi-failure-leaves-store-single-fault] result1 != nil && old(faults) <= 1 ==> storeSame()
-// the frame towards callers is not claimed for this function (callers treat it as modifying
-// everything); what it leaves unchanged is stated explicitly in the postconditions above
-//@   modifies all
+//@   modifies map(ci.allocatedFIPs), map(ci.unallocatedFIPs), fresh FloatingIP.*, StoreDom, StoreKey, StorePolicy, StoreNode, StoreUid, faults, fresh elemsof(byte), fresh elemsof(string), fresh elemsof(net.IP), fresh elemsof(*FloatingIP), fresh mapsof(map[string]sets.Empty)
 // phase 1 (pick one free routable IP per range): only the pick list, the pick set and fresh IP
 // buffers are written, everything else keeps its entry value (inferred frame of the loop cut)
 //@   loop 0,call:walkIPRanges#0/0,call:walkIPRanges#0/1 invariant allocatedIPStrs == nil || fresh(allocatedIPStrs)
@@ -411,6 +418,7 @@ package floatingip
 //@   ensures [C04,C01:updateattr-needs-key-match] err == nil ==> old(ipS in ci.allocatedFIPs && ci.allocatedFIPs[ipS].Key == key)
 //@   ensures [C05:updateattr-applies] err == nil ==> attrApplied(ci.allocatedFIPs[ipS], key, attr)
 //@   ensures [C01,C04:updateattr-frame] tablesSame(ci) && entriesSameExcept(old(ci.allocatedFIPs[ipS])) && ciFieldsSame(ci)
+//@   ensures [C05,C01:updateattr-failure-atomic] err != nil ==> storeUnchanged() && (old(ipS in ci.allocatedFIPs) ==> sameEntry(old(ci.allocatedFIPs[ipS])))
 //@   ensures [C04:updateattr-store-only-that-ip] StoreDom == old(StoreDom) && forall k string :: k != ipS ==> storeSameAt(k)
 //@   modifies FloatingIP.Key, FloatingIP.Policy, FloatingIP.UpdatedAt, FloatingIP.NodeName, FloatingIP.PodUid, StoreKey, StorePolicy, StoreNode, StoreUid, fresh FloatingIP.IP, fresh FloatingIP.pool, fresh FloatingIP.Labels, faults
 //@ func (IPAM).AllocateInSubnetsAndIPRange trusted
@@ -425,10 +433,11 @@ package floatingip
 //@   requires forall i int, r int {ipranges[i][r]} :: 0 <= i && i < len(ipranges) && 0 <= r && r < len(ipranges[i]) ==> nets.wfRange(ipranges[i][r])
 //@   ensures [C01,C05] inv(ci)
 //@   ensures [C05:multi-synced-single-fault] old(faults) <= 1 ==> synced(ci)
+//@   ensures [C05:multi-synced-on-success] result1 == nil ==> synced(ci)
 //@   ensures [C01:multi-frame] allEntriesSame() && ciFieldsSame(ci)
 //@   ensures [C08,C05:multi-failure-leaves-tables] result1 != nil ==> tablesSame(ci)
 //@   ensures [C04:multi-store-only-adds] forall k string :: old(StoreDom[k]) ==> storeSameAt(k)
-//@   modifies all
+//@   modifies map(ci.allocatedFIPs), map(ci.unallocatedFIPs), fresh FloatingIP.*, StoreDom, StoreKey, StorePolicy, StoreNode, StoreUid, faults, fresh elemsof(byte), fresh elemsof(string), fresh elemsof(net.IP), fresh elemsof(*FloatingIP), fresh mapsof(map[string]sets.Empty)
 
 // ---- NodeSubnetsByIPRanges (filter side of C06): every offered node subnet can serve EVERY requested range ----
 // poolIndexOK: every free entry's pool is the pool found at its index (I5 of DESIGN.md)
